@@ -99,6 +99,13 @@ class Run(RunBase):
         self.disk = {}           # slot -> {"file": SimFile or bytes, "groups": [(name, N, NGF, gen)]}
         self.open_files = []
         self.gen = 0
+        if world.get("lookalike"):
+            # elsewhere in the caller's program a calculator for a LOOKALIKE crystal (same cell, same printed form,
+            # another symmetry analysis: simple cubic with and without NOSYM) was loaded earlier and is still held:
+            # whatever loading remembers per process must not hand its crystal to the calculators of this run
+            other = "scnosym" if world["crystal"] == "sc" else "sc"
+            self.lookalike = self.load_bytes(world_data(other).image(1, 2), "calc", keep_open=False)
+            self.faults["lookalike-calculator-held"] += 1
         if world["birth"] == "ctor" and world.get("own_crystal"):
             # the calculator gets a Crystal object of its own, on which the caller has already built and used a
             # different (decoy) Green-function calculator: whatever a Crystal remembers between calls must not leak
@@ -1159,6 +1166,7 @@ class Engine(object):
         w["memo_inputs"] = rng.random() < 0.5
         w["own_crystal"] = rng.random() < 0.5
         w["kwcalls"] = rng.random() < 0.5
+        w["lookalike"] = c in ("sc", "scnosym") and rng.random() < 0.5
         w["class"] = "{}/N{}/G{}".format(c, "".join(map(str, ranges)), "".join(map(str, grids)))
         return w
 
